@@ -53,7 +53,13 @@ func replayArgs(line []byte, a *Acc) {
 	call := func(name string, fn func()) bool {
 		n++
 		if p := guard(fn); p != "" {
-			one("args:panic:"+name, name+": "+p)
+			// (a wildcard argument reaches the panicking node or not depending on the runtime's map iteration order: its own class, so
+			//  that a deterministic instance of the same panic is re-executed on its own)
+			wild := ""
+			if strings.Contains(l.S, "*") {
+				wild = ":wildcard"
+			}
+			one("args:panic:"+name+wild, name+": "+p)
 			return false
 		}
 		return true
@@ -190,7 +196,7 @@ func renderToks(ts []tokT) []byte {
 			b.WriteString("<!--" + strings.Join(t.Tx, "") + "-->")
 		}
 	}
-	return []byte(b.String())
+	return []byte(subst1(b.String())) // (placeholders of the specification's ASCII alphabet: ~ is a two-byte letter)
 }
 
 // oracleClass: what encoding/xml makes of the first document
